@@ -83,6 +83,13 @@ def shard_eval(prefix, header, case_terms, per_case_evals, nshards=16, timeout=9
     that case refer to (using the suffix _<i>). per_case_evals: number of Eval blocks per case.
     Returns list (per case) of list of block strings."""
     n = len(case_terms)
+    # memory: a coqc holding a 10 MB case file peaks near 5 GB, and 16 of them run at once -- keep every file below ~2.5 MB
+    total_bytes = sum(len(t) for t in case_terms)
+    nshards = max(nshards, total_bytes // 2500000 + 1)
+    if n > 400:
+        # large (thorough) batches: many small files keep every coqc well inside its time limit
+        nshards = max(nshards, n // 12)
+        timeout = max(timeout, 2400)
     nshards = max(1, min(nshards, n))
     per = (n + nshards - 1) // nshards
     files = []
